@@ -39,3 +39,10 @@ def run(ctx, rep):
             S.hemisphere_parity(rep, 'R3.4', f'{k}:guard-parity', g)
         rep.sample({k: show(pay, maxd=7)[:300]})
     imsaak.check(ctx, rep, 'R3.1')
+    # shared mechanism (a necessary condition of this property too): the ephemeris is taken at the requested date
+    from . import shared, julian
+    shared.include(ctx, rep, lambda c_, r_: julian.check(c_, r_, 'R3.7'), {'R3.7'}, why='Julian Day of the requested date')
+    # shared mechanism: no wrap-induced jump of the interpolated right ascension / declination (R1.2)
+    from . import shared, modular, conv as _CV
+    shared.include(ctx, rep, lambda c_, r_: modular.check(c_, r_, _CV.get(c_)), {'R1.2'}, why='360->0 seam hygiene of the interpolation')
+
